@@ -164,6 +164,20 @@ theorem C03_final_sync_retried {c : Cfg} (hss : 0 < c.ss) {w w' : World} (hr : R
   have hc := (shutInv_reach hss hr').closed (by rw [a2]; exact Or.inl rfl)
   exact ⟨a2, hc, a3, a6, a9, a10⟩
 
+/-- **A restart reads exactly the last durable state write, whatever its size.** When
+`WritePersistentState` has returned (stage 6: written, fsynced, renamed, directory fsynced), what
+`ReadPersistentState` yields after a crash - any choice among the candidates, with or without a
+stale `state.new` - is the state that was handed to that call: all blocks, all epoch hash seeds (the
+model's files are unbounded lists).  The correspondence run checks the real
+`DirectoryBackedPersistentStateStore` against this line with states from a few bytes to several
+hundred KiB (`psx.StateRoundTrip`). -/
+theorem C03_state_read_is_last_write {c : Cfg} (hss : 0 < c.ss) {w : World} (hr : Reach c w) {s : Sw} (hsw : w.sw = some s)
+    (h6 : s.stage = 6) (pick : Nat) (lo : Bool) : World.readState (w.dir.crash pick lo) = s.file := by
+  obtain ⟨_, _, _, _, a6, _, _⟩ := (inv_reach hss hr).sw.stage s hsw
+  obtain ⟨hst, hren⟩ := a6 h6
+  simp only [World.readState, StateDir.crash, StateDir.candidates, hst, hren, List.map_nil]
+  cases pick <;> simp
+
 /-! ## The hypotheses are satisfiable: a concrete history
 
 4-byte sectors, 8-byte blocks, 3 blocks.  One upload (5 bytes, key 7, content token 100) with its
@@ -286,6 +300,9 @@ example : BB.BlockMap.CfgOK ⟨.immutable ⟨2⟩, 8, 1, 1⟩ ∧
 
 /-- `C03_final_sync_retried`: `v5` is inside the final data sync, which may fail. -/
 example : v5.g1 = .syncing true ∧ ∃ w', v5.syncFail = some w' := ⟨by rfl, _, rfl⟩
+
+/-- `C03_state_read_is_last_write`: in `u16` the state write of `ProcessBlockPut` has returned. -/
+example : ∃ s, u16.sw = some s ∧ s.stage = 6 ∧ s.file.blocks.length = 1 := ⟨_, rfl, rfl, rfl⟩
 
 end Example
 
